@@ -12,7 +12,9 @@ RULE = ('cases = (measure, dt, record) through eqsig.im.* on an AccSignal; exact
         'non-trivial = record has >= 3 samples and is not identically zero')
 TRUSTED = [
     'Coq 8.16.1 kernel + vm_compute',
-    'hand-written model coq/model/M_im.v (+ M_displacements.v); tie = correspondence of this run (model/K_C09.v)',
+    'hand-written model coq/model/M_im.v (+ M_displacements.v); tie = correspondence of this run (model/K_C09.v), and, for every measure except '
+    'cav_dp, translator/py2coq_numpy.py (re-run on every check) + the C09_*_is_source theorems: trusted there is only the translator\'s reading of '
+    'each whitelisted NumPy/SciPy call as a lib/NpList.v primitive',
     'exact arithmetic (rounding not modelled); pi/(2*9.81), 9.81 and 0.025 enter the Q-run as the exact rational values of the floats the code uses',
     'cav_dp: numpy arange length per window is observed by the harness, not modelled (property allows one panel per window)',
     'Q-run vs R-theorems: same polymorphic definitions (homomorphism proved for cumsum/cumtrapz/map)',
@@ -97,7 +99,8 @@ def cavdp_fragile(a, dt):
 
 
 def run(rep, rng, tier):
-    rep.prove('Prop_C09')
+    from harness.props.c08 import regen_quadrature      # re-translate the sources; a failure breaks the tie (fail closed)
+    rep.prove('Prop_C09', gen_failed=regen_quadrature())
     cases = []
     fragile = 0
     n_exact, n_tol = (25, 8) if tier == 'quick' else (250, 60)
